@@ -547,8 +547,15 @@ func (m *fieldModel) dispatch(c *Ctx) {
 	// base writes: stores in Get itself or in a plain helper it calls (the
 	// no-header arm builds blocks that carry only their number); the fetch
 	// routines (methods of Client) are accounted for per flag
-	for _, f := range NewRegion(get).Funcs() {
-		if f != get && f.Signature.Recv() != nil && repoNamedIs(f.Signature.Recv().Type(), "jrpc2", "Client") {
+	isRoutine := map[*ssa.Function]bool{}
+	for _, r := range m.routOf {
+		isRoutine[r] = true
+	}
+	for r := range m.supp {
+		isRoutine[r] = true
+	}
+	for _, f := range dispFns {
+		if isRoutine[f] {
 			continue
 		}
 		allInstrs(f, func(in ssa.Instruction) {
